@@ -360,3 +360,42 @@ def py_unsafe(db, ctx):
     flds = [(f["name"], f["ty"]) for v in wid["variants"] for f in v["fields"]]
     ctx.ob("WordId|layout-u32", flds == [("raw", "u32")], "WordId is a single u32 field %s (the Vec<WordId> -> Vec<u32> transmute relies on it; repr(transparent) is "
                                                            "checked by the compiler for the attribute itself)" % flds)
+
+
+@rule("C19.cli-subset", "if the CLI restricts the tokenizer's field subset, every output writer's subset() covers the word-info fields the "
+                        "path-rewrite plugins read (otherwise the printed segmentation differs from the library's)")
+def cli_subset(db, ctx):
+    from .. import cg
+    g = cg.get(db)
+    # fields the bundled path-rewrite plugins read from word infos
+    reads = set()
+    impls = [f for f in db.impls_of("PathRewritePlugin::rewrite") if f.pkg == "sudachi"]
+    for k in g.closure([f.key for f in impls]):
+        f = db.fns[k]
+        if f.pkg != "sudachi" or not f.hir or "::plugin::path_rewrite::" not in k:
+            continue
+        for c, _ in walk(f.hir):
+            if c.get("k") == "MethodCall" and (callee(c) or "").endswith("WordInfo::" + c["method"]) and c["method"] in ("pos_id", "normalized_form", "reading_form", "dictionary_form"):
+                reads.add({"pos_id": "POS_ID", "normalized_form": "NORMALIZED_FORM", "reading_form": "READING_FORM", "dictionary_form": "DIC_FORM_WORD_ID"}[c["method"]])
+    ctx.ob("plugin-reads", len(reads) >= 2, "path-rewrite plugins read word-info fields %s" % sorted(reads), nontrivial=False)
+    # does the CLI hand an output-defined subset to the tokenizer?
+    wired = []
+    for f in db.fns.values():
+        if f.pkg != "sudachi-cli" or not f.hir:
+            continue
+        for c, _ in walk(f.hir):
+            if c.get("k") == "MethodCall" and c.get("method") == "set_subset" and c["args"]:
+                if mentions(c["args"][0], lambda x: x.get("k") == "MethodCall" and x.get("method") == "subset"):
+                    wired.append((f, c))
+    if not wired:
+        ctx.ob("cli-does-not-restrict-fields", True, "the CLI never passes an output writer's subset() to the tokenizer: the analysis uses all fields", nontrivial=True)
+        return
+    for outp in db.impls_of("SudachiOutput::subset"):
+        flags = set()
+        for n, _ in walk(outp.hir):
+            if n.get("k") == "Path" and n.get("res") == "def" and "InfoSubset::" in (n.get("path") or ""):
+                flags.add(n["path"].split("::")[-1])
+        missing = sorted(reads - flags)
+        ctx.ob("%s|covers-plugin-fields" % outp.short(), not missing,
+               "%s requests %s and the CLI wires it into the tokenizer (%s); path-rewrite plugins read %s; missing: %s — numerals / katakana runs "
+               "are then segmented differently from the library" % (outp.short(), sorted(flags), wired[0][0].short(), sorted(reads), missing), fn=outp)
